@@ -68,6 +68,21 @@ def records_for(tag, j, g, rng, tier):
         after, a2 = hg.proj(H, g)
         if after != src:
             anom = anom + ["input-changed"]
+        elif result is not None and not result.is_frozen:
+            # the derived network belongs to the caller: editing it must not reach the source
+            try:
+                with warnings.catch_warnings():
+                    warnings.simplefilter("ignore")
+                    result.add_edge(["__derived__", "__only__"])
+                    for e_ in list(result.edges)[:1]:
+                        result.add_node_to_edge(e_, "__derived__")
+                    result.remove_nodes_from(list(result.nodes)[:1])
+                    result["__derived__"] = 1
+            except Exception:  # noqa: BLE001
+                pass
+            again, _ = hg.proj(H, g)
+            if again != src:
+                anom = anom + ["result-shares-state-with-its-input"]
         out.append(_rec(f"{tag}.{fn}.{len(out)}", what, fn, src, dst, res, sorted(set(sanom + anom + a2)), **kw))
 
     # cleanup: all 32 flag combinations, not in place (in place is C05's business)
@@ -190,7 +205,7 @@ def _worker(args):
     for k, j in enumerate(states):
         rng = random.Random(seed_ * 104729 + base + k)
         # every fourth shape with labels that are themselves iterables (lattice coordinates)
-        g = Gamma(*(nets.FAMS + [("tuple", "int")])[(base + k) % (len(nets.FAMS) + 1)])
+        g = Gamma(*(nets.FAMS + [("tuple", "int"), ("negint", "int")])[(base + k) % (len(nets.FAMS) + 2)])
         out += records_for(f"s{base + k}", j, g, rng, tier)
         out += sc_records(f"s{base + k}sc", j, g, rng)
     return out
